@@ -169,7 +169,13 @@ func runTree(c *Case) *Obs {
 					return
 				}
 				l := [][2]int{}
-				limit := nkeys + 2
+				// (nkeys is refreshed by the invariant walk, which big trees run only every 16th operation)
+				limit := nkeys + 2 + 16
+				if isSet && s.Len()+2 > limit {
+					limit = s.Len() + 2
+				} else if !isSet && m.Len()+2 > limit {
+					limit = m.Len() + 2
+				}
 				for i := 0; ; i++ {
 					k, v, ok := it.Next()
 					if !ok {
